@@ -330,6 +330,8 @@ func astCompare(t *target, when string) astFinding {
 		}
 		res.Agree, res.Decl = false, want[i].name
 		switch {
+		case i == 0:
+			res.What = "the file node, the types.Info tables or the package scope are not what they were after type checking"
 		case want[i].hasDoc && !got[i].hasDoc:
 			res.What = "the declaration has lost its doc comment"
 		case !want[i].hasDoc && got[i].hasDoc:
